@@ -127,3 +127,13 @@ package verifspec
 //@   assigns m.m
 //@   ensures !has(m.m, key)
 //@   ensures all(k, k != key(key) ==> has(m.m, k) == has(old(m.m), k) && (has(m.m, k) ==> m.m[k] == old(m.m)[k]))
+
+// Range: the callback is only ever shown entries of the map (key present, with its current value); the map itself is
+// not written.  (Which entries are visited before a callback returns false is the enumeration order, unspecified as in
+// sync.Map.)
+//@ func nosync.Map.Range
+//@ property C13
+//@   word 32
+//@   requires m != nil
+//@   oncall f: assert has(m.m, a0) && m.m[key(a0)] == a1
+//@   loop 1 invariant true
